@@ -19,7 +19,7 @@ import time
 
 from harness import kit, ser
 
-BUGS_QUICK = ["sequential", "recursive", "namefirst", "collapse"]
+BUGS_QUICK = ["sequential", "recursive", "namefirst", "collapse", "relookup"]
 BUGS_ALL = BUGS_QUICK + ["skipkw", "skipslice", "innermost"]
 
 
@@ -574,7 +574,12 @@ def run(tier, seed, out):
                 "only; plus same-kind nests (a node directly below a node of its own kind: unary kinds in all "
                 "combinations and three deep, every n-ary / binary kind, CSE, If, Call, Comparison) with a "
                 "key underneath x all quick maps, and every root kind / nest x maps whose inserted value "
-                "is one of each node kind (the replacement creates the nest); thorough adds -simulate "
+                "is one of each node kind (the replacement creates the nest); plus key overlaps: a compound "
+                "key K (t[x], t[1], o.p) together with replacements (variables by name / as Variable, other "
+                "compound keys) that turn a NON-key Subscript / Lookup of the tree into K - by its index, its "
+                "aggregate, both, a swap - with K's value a constant or mentioning K and further keys, the "
+                "near-key alone, next to K, below / above Subscript and Lookup nodes (thorough: under every "
+                "root kind); thorough adds -simulate "
                 "random deeper trees; one case = one pair through 5 entry "
                 "points, judged in 4 environments + identity flags; non-trivial = non-empty map and a "
                 "composite tree; distinct by canonical JSON digest.  Histories (C08_Hist): 6 pairs of "
